@@ -6,9 +6,9 @@ agreement in TableAttributes._encode; R02.5 order-preserving column removal comp
 frame; R02.6 display predicate == removal predicate (shared R05.2); R02.7 multi-section order;
 R02.8 the text pipeline of a cell depends only on that cell (no cache across cells).
 
-R02.1, R02.4, R02.5 and R02.7 are decided by scenario execution (tablecore.Scen): the function is
-interpreted on mock frames/pages and what it does with the rows is compared with the property, so the
-rules do not depend on statement shape, local names, helper extraction or loop form.
+R02.1, R02.4 and R02.7 are decided by abstract evaluation over symbolic inputs (tablecore.TDT: one generic
+page / boundary / cell / section, every valuation of the consulted conditions) and the verdict is read
+off the resulting terms; R02.5 and R02.8 are structural / effects rules.
 """
 from __future__ import annotations
 
@@ -21,78 +21,10 @@ from . import tablecore as T
 
 
 def r02_7(ctx: Ctx) -> None:
-    """multi-section documents: sections are encoded one by one in list order, each from its own frame and body, and
-    concatenated in that order (interpreted on a mock 3-section document); an unequal number of frames and bodies must not
-    be truncated silently.  Then the page order inside one section (tablecore.body_section_order)."""
-    from ..pm import AnalysisError
-    pm = ctx.pm
-    fi = pm.func("UnifiedRTFEncoder._encode_multi_section")
-    ps = [a.arg for a in fi.node.args.args]
-    services = ("encode_document_start", "encode_font_table", "encode_color_table", "encode_page_header", "encode_page_footer", "encode_page_settings")
-    T.scenario_note(ctx, "R02.7", "UnifiedRTFEncoder._encode_multi_section", "for every content of the sections",
-                    {"sections (frames, bodies)": [(3, 3), (3, 2)], "columns per section": [3, 2, 3], "titles/footnotes/sources": "absent", "evaluations": 2})
-
-    def mkdoc(n_bodies):
-        dfs = [T.Frame(f"s{k}", range(2 + k), ["a", "b", "c"][:3 - (k % 2)]) for k in range(3)]
-        bodies = [T.Obj(f"body{k}", cls="RTFBody", new_page=False, border_bottom=[["x"]]) for k in range(n_bodies)]
-        page = T.Obj("rtf_page", cls="RTFPage", border_first="double", border_last="double", page_title="all", page_footnote="last", page_source="last")
-        return T.Obj("document", cls="RTFDocument", df=dfs, rtf_body=bodies, rtf_column_header=[[T.Obj("h0")], [T.Obj("h1")], [None]], rtf_page=page,
-                     rtf_title=None, rtf_footnote=None, rtf_source=None, rtf_subline=None, rtf_page_header=None, rtf_page_footer=None)
-
-    def sections_in(v, acc):
-        if isinstance(v, T.Mark):
-            if v.name == "_encode_body_section":
-                acc.append(v)
-            else:
-                for x in list(v.args) + list(v.kw.values()):
-                    sections_in(x, acc)
-        elif isinstance(v, (list, tuple)):
-            for x in v:
-                sections_in(x, acc)
-        elif isinstance(v, T.Splat):
-            sections_in(v.v, acc)
-        return acc
-
-    for n_bodies in (3, 2):
-        markers = {"_encode_body_section": "list", "update_row": "scalar", **{k: "scalar" for k in services}}
-        try:
-            if len(ps) != 2:
-                raise AnalysisError("signature (self, document) not recognised")
-            runs = T.Scen(pm, markers=markers).runs(fi, {ps[0]: T.Sym("self", fi.cls), ps[1]: mkdoc(n_bodies)})
-        except AnalysisError as e:
-            ctx.gap("R02.7", f"_encode_multi_section could not be interpreted on a mock {n_bodies}-body document: {e}")
-            continue
-        for _val, r in runs:
-            calls = [m for m in r.trace if m.name == "_encode_body_section"]
-            if n_bodies == 2:
-                ctx.instance("R02.7", fi.where(), f"multi-section with 3 frames and 2 bodies: raises {r.raised!r}; sections encoded {len(calls)}")
-                if not r.raised:
-                    ctx.violation("R02.7", fi.short, "section loop: unequal lists truncated", fi.where(),
-                                  f"with 3 frames and 2 bodies {len(calls)} sections are encoded and the rest is dropped silently (the lists must be zipped strictly)")
-                continue
-            if r.raised:
-                ctx.gap("R02.7", f"_encode_multi_section raises {r.raised} on a mock 3-section document")
-                continue
-            emitted = sections_in(r.ret, [])
-            order = []
-            bad = []
-            for m in emitted:
-                d, f, b = (m.args + [None, None, None])[:3]
-                k = int(f.tag[1:]) if isinstance(f, T.Frame) and f.tag[:1] == "s" and f.tag[1:].isdigit() else None
-                order.append(k)
-                if not (isinstance(b, T.Obj) and b.name == f"body{k}"):
-                    bad.append(f"section {k} is encoded with body {b!r}")
-                if isinstance(d, T.Obj):
-                    if not (isinstance(d.attrs.get("df"), T.Frame) and d.attrs["df"].tag == f"s{k}") or not (isinstance(d.attrs.get("rtf_body"), T.Obj) and d.attrs["rtf_body"].name == f"body{k}"):
-                        bad.append(f"the document copy of section {k} carries df={d.attrs.get('df')!r}, rtf_body={d.attrs.get('rtf_body')!r}")
-                else:
-                    bad.append(f"section {k} is encoded against `{d!r}`, not a per-section copy of the document")
-            ctx.instance("R02.7", fi.where(), f"multi-section: sections reach the output in the order {order} (encoded: {len(calls)}); each with its own frame/body: {not bad}")
-            if order != [0, 1, 2] or len(calls) != 3:
-                ctx.violation("R02.7", fi.short, "section loop", fi.where(), f"sections are not encoded one by one, in list order, and concatenated in that order: sections [0, 1, 2] reach the output as {order}"
-                              + (" (a section can be skipped)" if len(order) < 3 else ""))
-            elif bad:
-                ctx.violation("R02.7", fi.short, "section loop: frame/body", fi.where(), "a section is not encoded from its own frame and body: " + bad[0])
+    """multi-section documents: sections are encoded one by one in list order, each from its own frame and body, and concatenated in that
+    order; an unequal number of frames and bodies must not be truncated silently (one generic section of the section loop,
+    tablecore.section_loop).  Then the page order inside one section (tablecore.body_section_order)."""
+    T.section_loop(ctx, "R02.7")
     T.body_section_order(ctx, "R02.7")
 
 
@@ -140,18 +72,20 @@ def r02_8(ctx: Ctx) -> None:
 
 def check(ctx: Ctx) -> None:
     ctx.explain(
-        "Necessary conditions for row/cell preservation, decided by interpreting the functions of the table pipeline on mock tables whose "
-        "rows, columns and attribute entries are distinguishable (no repository code runs; sa/dtab.py evaluates the syntax trees): "
-        "R02.1 _apply_data_post_processing re-cuts mock pages as consecutive slices of the reduced (with group_by: restored) frame; "
-        "_render_body hands every row of a mock page with internal group boundaries to _encode exactly once, in order, with "
-        "row_offset = position of the segment's first row, under every valuation of the configuration it reads; R02.2/R02.3 via C04's "
-        "page-slice and page-assignment tables; R02.4 _encode on a mock segment with nulls in a string and in a numeric column: one "
-        "table row per data row, cell (i,j) shows df[i,j] (null -> '', else str) and ends at col_widths[j]; R02.5 column removal on a "
-        "mock frame with two removed columns; R02.6 via C05's three-site predicate table; R02.7 sections and pages reach the output "
-        "in list order, each section from its own frame/body; R02.8 the per-cell text pipeline touches no shared state.")
-    ctx.assume("polars slice/head/tail/select/drop/row/fill_null return the rows/columns they are documented to return (fill_null(value) only fills columns whose dtype accepts the value)")
-    ctx.assume("BroadcastValue's `value` validator (_to_nested_list) normalises scalars, flat lists, tuples and frames to nested lists as modelled in tablecore.nested_list_form")
-    ctx.undecided("that the concatenated page rows equal the input for concrete frames (row->page arithmetic is run-time); cell text after escaping/conversion (C10/C11)")
+        "Necessary conditions for row/cell preservation, each decided by evaluating the function concerned over SYMBOLIC inputs (tablecore.TDT / c05.LDT: "
+        "no repository code runs, no table shape, page layout or cell value is chosen; loops over pages / boundaries / rows / columns / sections are one "
+        "generic iteration from a symbolic entry state; every valuation of the consulted conditions is enumerated): R02.1 _apply_data_post_processing "
+        "re-cuts the generic page as F.slice(c, h) with h the page's own height, c' = c + h, c = 0 before the loop, F the reduced (with group_by: "
+        "restored) frame; _render_body: segment [cursor, boundary) with row_offset = cursor and cursor' = boundary on every path of the generic boundary "
+        "iteration (c05 R05.7), cursor = 0 before the loop, tail [cursor, end) whenever rows remain, whole page with offset 0 on the boundary-free path; "
+        "R02.2/R02.3 via C04's page-slice and page-assignment tables; R02.4 the generic cell (i, j) of _encode shows df.row(i)[j] (null -> '', else "
+        "str) and ends at col_widths[j], i / j run over all rows / columns in order, one Row per data row reaches the result; R02.5 column removal "
+        "(structural: positions from the original frame, filter polarity, deletion order, column order, deep copy, returned triple); R02.6 via C05's "
+        "three-site predicate table; R02.7 the generic section is encoded from the pair the strict zip of frames and bodies yields, against a per-section "
+        "document copy, results appended in order; pages of a section rendered in page order; R02.8 the per-cell text pipeline touches no shared state "
+        "(effects analysis over the call graph).")
+    ctx.undecided("that the concatenated page rows equal the input for concrete frames (row->page arithmetic is run-time); cell text after escaping/conversion (C10/C11); "
+                  "the interplay of several consecutive iterations beyond the inductive step (cursor from 0, advanced by exactly what was emitted)")
     T.cursor_post_processing(ctx, "R02.1")
     T.cursor_render_body(ctx, "R02.1")
     from .c04 import r04_1, r04_5
